@@ -219,7 +219,19 @@ Ltac land_facts :=
   | _ : context [N.land ?x 15] |- _ =>
       lazymatch goal with H : N.land x 15 <= 15 |- _ => fail | _ => pose proof (land15_le x) end
   end.
-Ltac pkt_arith := land_facts; cbn [N.of_nat Pos.of_succ_nat Pos.succ length] in *; lia.
+Ltac firstn_facts :=
+  repeat match goal with
+  | |- context [length (firstn ?k ?l)] =>
+      lazymatch goal with H : (length (firstn k l) <= k)%nat |- _ => fail | _ => pose proof (firstn_le_length k l) end
+  end.
+Ltac split_ifs :=
+  repeat match goal with
+  | H : context [if ?c then _ else _] |- _ => destruct c eqn:?
+  | |- context [if ?c then _ else _] => destruct c eqn:?
+  end.
+Ltac pkt_arith :=
+  land_facts; firstn_facts; cbn [N.of_nat Pos.of_succ_nat Pos.succ length] in *;
+  first [lia | split_ifs; lia].
 
 (* hooks: program-specific lemmas for the fixpoints (loops) a program uses *)
 Ltac inb_extra := fail.
@@ -258,6 +270,14 @@ Ltac inb_step :=
   | |- inb _ _ => inb_extra
   end.
 Ltac inb_go := repeat inb_step.
+(* modular variant: a branching block in front of a continuation is proved on its own (the
+   continuation then knows nothing about the path taken inside the block) *)
+Ltac inb_stepm :=
+  lazymatch goal with
+  | |- inb _ (bind (match ?c with _ => _ end) _) => apply inb_bind; [|intro; cbv beta]
+  | _ => inb_step
+  end.
+Ltac inb_gom := repeat inb_stepm.
 
 (* ---- traversal for pu up to the first store (where the goal becomes the Act predicate) *)
 Ltac pu_step :=
@@ -281,6 +301,12 @@ Ltac pu_step :=
   | |- pu _ _ _ => pu_extra
   end.
 Ltac pu_go := repeat pu_step.
+Ltac pu_stepm :=
+  lazymatch goal with
+  | |- pu _ _ (bind (match ?c with _ => _ end) _) => apply pu_bind; [|intro; cbv beta]
+  | _ => pu_step
+  end.
+Ltac pu_gom := repeat pu_stepm.
 
 (* programs take dl = data_end - data from the frame they are started on *)
 Lemma inb_dl {A} n (body : N -> M A) : inb n (body n) -> inb n (fun f => body (flen f) f).
@@ -358,3 +384,86 @@ Ltac vdr_step :=
   | |- vdr _ (exit _) => apply vdr_exit; reflexivity
   end.
 Ltac vdr_go := repeat vdr_step.
+(* vd traversal (blocks that do not produce the final value) and the modular variant of vdr *)
+Ltac vd_step :=
+  lazymatch goal with
+  | |- vd _ (bind (bind _ _) _) => apply vd_bind_assoc
+  | |- vd _ (bind (match ?c with _ => _ end) _) => apply vd_bind; [|intro; cbv beta]
+  | |- vd _ (match ?c with _ => _ end) => destruct c
+  | |- vd _ (bind _ _) => apply vd_bind; [|intro; cbv beta]
+  | |- vd _ (ret _) => apply vd_ret
+  | |- vd _ (exit _) => apply vd_exit; reflexivity
+  | |- vd _ _ => vd_prim
+  end.
+Ltac vd_go := repeat vd_step.
+Ltac vdr_stepm :=
+  lazymatch goal with
+  | |- vdr _ (bind (match ?c with _ => _ end) _) => apply vdr_bind; [vd_go|intro; cbv beta]
+  | _ => vdr_step
+  end.
+Ltac vdr_gom := repeat vdr_stepm.
+
+(* ---- pq: a program whose stores are all followed by a non-pass verdict (DHCP fast path).
+   Read-only blocks are discharged with pu ... False; from the first store on, np. *)
+Definition is_xdp_pass (v : N) : bool := v =? XDP_PASS.
+Definition pq (f0 : frame) (m : M N) : Prop :=
+  forall f, f = f0 ->
+  match m f with OOB => True | Val v f' => f' = f0 \/ v <> XDP_PASS | Exit v f' => f' = f0 \/ v <> XDP_PASS end.
+
+Lemma pq_ret f0 v : pq f0 (ret v). Proof. intros f H; left; exact H. Qed.
+Lemma pq_exit f0 v : pq f0 (exit v). Proof. intros f H; left; exact H. Qed.
+Lemma pq_bind_ro {A} f0 (m : M A) (k : A -> M N) : pu f0 False m -> (forall a, pq f0 (k a)) -> pq f0 (bind m k).
+Proof.
+  intros Hm Hk f Hf. unfold bind. specialize (Hm f (or_introl Hf)).
+  destruct (m f) as [a g|v g|]; auto.
+  - destruct Hm as [E|[]]. apply Hk; exact E.
+  - destruct Hm as [E|[]]. left; exact E.
+Qed.
+Lemma pq_bind_assoc {A B} f0 (m : M A) (k : A -> M B) (k2 : B -> M N) :
+  pq f0 (bind m (fun a => bind (k a) k2)) -> pq f0 (bind (bind m k) k2).
+Proof. intros H f Hf. specialize (H f Hf). unfold bind in *. destruct (m f); auto. Qed.
+Lemma pq_bind_ret {A} f0 (a : A) (k : A -> M N) : pq f0 (k a) -> pq f0 (bind (ret a) k).
+Proof. intros H f Hf. exact (H f Hf). Qed.
+Lemma pq_bind_exit {A} f0 v (k : A -> M N) : pq f0 (bind (exit v) k).
+Proof. intros f Hf. left; exact Hf. Qed.
+Lemma pq_np f0 (m : M N) : np is_xdp_pass (fun v => is_xdp_pass v = false) m -> pq f0 m.
+Proof.
+  intros H f _. specialize (H f).
+  destruct (m f) as [v g|v g|]; auto; right; intro E; subst v; discriminate.
+Qed.
+Lemma pq_dl f0 (body : N -> M N) : pq f0 (body (flen f0)) -> pq f0 (fun f => body (flen f) f).
+Proof. intros H f Hf. subst f. apply H; reflexivity. Qed.
+Lemma pq_run (m : M N) f v f' : pq f m -> run m f = Done v f' -> v = XDP_PASS -> f' = f.
+Proof.
+  intros H. specialize (H f eq_refl). unfold run.
+  destruct (m f) as [a g|w g|]; intros E Hv; inversion E; subst; destruct H as [H|H]; auto; contradiction.
+Qed.
+
+Ltac pq_step :=
+  lazymatch goal with
+  | |- pq _ (bind (bind _ _) _) => apply pq_bind_assoc
+  | |- pq _ (bind (ret _) _) => apply pq_bind_ret; cbv beta match
+  | |- pq _ (bind (exit _) _) => apply pq_bind_exit
+  | |- pq _ (bind _ _) => apply pq_bind_ro; [solve [pu_gom]|intro; cbv beta]
+  | |- pq _ (match ?c with _ => _ end) => destruct c eqn:?
+  | |- pq _ (ret _) => apply pq_ret
+  | |- pq _ (exit _) => apply pq_exit
+  end.
+Ltac pq_go := repeat pq_step.
+
+Ltac np_extra := fail.
+Ltac np_prim :=
+  first [apply np_rd8|apply np_rd16|apply np_rd32|apply np_wr8|apply np_wr16|apply np_wr32
+        |apply np_wr_bytes|apply np_wr_zero|np_extra].
+Ltac np_step :=
+  lazymatch goal with
+  | |- np _ _ (bind (bind _ _) _) => apply np_bind_assoc
+  | |- np _ _ (bind (ret _) _) => apply np_bind_ret; cbv beta match
+  | |- np _ _ (bind (exit _) _) => apply np_bind_exit; first [reflexivity|exfalso; pkt_arith]
+  | |- np _ _ (bind (match ?c with _ => _ end) _) => destruct c eqn:?
+  | |- np _ _ (match ?c with _ => _ end) => destruct c eqn:?
+  | |- np _ _ (bind _ _) => apply np_bind_prim; [np_prim|intro; cbv beta]
+  | |- np _ _ (exit _) => apply np_exit; first [reflexivity|exfalso; pkt_arith]
+  | |- np _ _ _ => np_extra
+  end.
+Ltac np_go := repeat np_step.
